@@ -3,7 +3,7 @@
 EXTENDS Handshake, Json
 CONSTANTS MaxBudget, MaxExtras
 VARIABLE s
-Kinds == {"ok", "fail", "noresult", "nooh", "noapps", "unsupapps", "vsaunsup", "vsaok", "relayok", "silence", "eof"}
+Kinds == {"ok", "fail", "noresult", "nooh", "noapps", "unsupapps", "vsaunsup", "vsaok", "relayok", "failok", "silence", "eof"}
 Extras == {"dupok", "latefail", "latemalformed"}
 Seqs(S, n) == UNION {[1..k -> S] : k \in 0..n}
 \* stall: milliseconds the transport takes to accept each CER (back-pressure); the spacing is
